@@ -534,101 +534,183 @@ def _constants(ctx):
             ctx.violated(fm, fm.node, "alias %s -> %s is not defined for %s" % (a, src, missing), text="alias " + a)
 
 
+def _pair_table(prog, f):
+    """the (P_A, beta) table `f` iterates over: a literal list/tuple of pairs, defined in the function or once at module level
+    -> (name, [(P_A, beta)], node) or None"""
+    def pairs_of(v):
+        if isinstance(v, (ast.List, ast.Tuple)) and v.elts and all(isinstance(e, (ast.Tuple, ast.List)) and len(e.elts) == 2
+                                                                   for e in v.elts):
+            ps = [(const_value(e.elts[0]), const_value(e.elts[1])) for e in v.elts]
+            if all(isinstance(a, (int, float)) and isinstance(b, (int, float)) for a, b in ps):
+                return ps
+        return None
+    cands = []
+    for s_ in walk_function(f.node):
+        if isinstance(s_, ast.Assign) and len(s_.targets) == 1 and isinstance(s_.targets[0], ast.Name) and pairs_of(s_.value):
+            cands.append((s_.targets[0].id, pairs_of(s_.value), s_))
+    used = names_in(f.node)
+    seen = {}
+    for s_ in f.module.tree.body:
+        if isinstance(s_, ast.Assign) and len(s_.targets) == 1 and isinstance(s_.targets[0], ast.Name):
+            seen.setdefault(s_.targets[0].id, []).append(s_)
+    for n_, defs in seen.items():
+        if n_ in used and len(defs) == 1 and pairs_of(defs[0].value):
+            cands.append((n_, pairs_of(defs[0].value), defs[0]))
+    return cands[0] if len(cands) == 1 else None
+
+
 def _beta(ctx):
     prog = ctx.prog
     ctx.rule("R-C09-4", floor=9, what="beta table == -Phi^-1(P_A); alpha shape shared by normal/log-normal; blanket factors")
+    from ..absint import Interp, TermDomain, term_resolve, term_select, term_to_ast, RAISED
+    from ..astutil import inline_single_defs
     LD = "pylife.strength.fkm_load_distribution:"
     f = prog.func(LD + "FKMLoadSequence._get_beta")
-    lst = [s for s in walk_function(f.node) if isinstance(s, ast.Assign) and isinstance(s.value, ast.List) and s.value.elts and
-           all(isinstance(e, ast.Tuple) and len(e.elts) == 2 for e in s.value.elts)]
-    if len(lst) != 1:
-        raise AnalysisError("_get_beta: (P_A, beta) list not found")
+    tab = _pair_table(prog, f)
+    if tab is None:
+        raise AnalysisError("_get_beta: (P_A, beta) table not found")
+    tname, pairs, tnode = tab
     nd = NormalDist()
-    pairs = [(const_value(e.elts[0]), const_value(e.elts[1])) for e in lst[0].value.elts]
     if len(pairs) < 6:
         raise AnalysisError("_get_beta: fewer than 6 tabulated pairs")
     for pa, b in pairs:
         ref = -nd.inv_cdf(pa)
         if abs(b - ref) < 0.01:
-            ctx.holds(f, lst[0], "beta(%g) = %g matches -Phi^-1 = %.4f" % (pa, b, ref))
+            ctx.holds(f, tnode, "beta(%g) = %g matches -Phi^-1 = %.4f" % (pa, b, ref))
         else:
-            ctx.violated(f, lst[0], "tabulated beta(%g) = %g but -Phi^-1(%g) = %.4f" % (pa, b, pa, ref), text="beta %g %g" % (pa, b))
-    loop = [s for s in walk_function(f.node) if isinstance(s, ast.For)]
-    ok = False
-    if loop and isinstance(loop[0].target, ast.Tuple) and len(loop[0].target.elts) == 2 and \
-            isinstance(loop[0].iter, ast.Name) and loop[0].iter.id == lst[0].targets[0].id:
-        pa_n, be_n = [t.id for t in loop[0].target.elts]
-        ok = any(isinstance(x, ast.If) and norm_text(x.test) == "np.isclose(input_parameters.P_A, %s)" % pa_n and
-                 isinstance(x.body[-1], ast.Return) and norm_text(x.body[-1].value) == be_n for x in loop[0].body)
-    if ok:
-        ctx.holds(f, loop[0], "beta is looked up by the requested P_A")
+            ctx.violated(f, tnode, "tabulated beta(%g) = %g but -Phi^-1(%g) = %.4f" % (pa, b, pa, ref), text="beta %g %g" % (pa, b))
+    # the look-up: an iteration over the table with target (a, b), filter isclose(<requested P_A>, a), result b
+    param = [p_ for p_ in f.params if p_ != "self"]
+
+    def requested(e):
+        e = inline_single_defs(f.node, e)
+        return isinstance(e, ast.Attribute) and e.attr == "P_A" and isinstance(e.value, ast.Name) and e.value.id in param
+
+    def close_test(t, a_name):
+        if isinstance(t, ast.Call) and call_name(t) in ("np.isclose", "math.isclose") and len(t.args) >= 2:
+            x, y = t.args[0], t.args[1]
+            for u, w in ((x, y), (y, x)):
+                if isinstance(w, ast.Name) and w.id == a_name and requested(u):
+                    return True
+        return False
+    verdict = None                       # (ok, node, what)
+    for n_ in ast.walk(f.node):
+        tgt = it_ = None
+        if isinstance(n_, ast.For):
+            tgt, it_ = n_.target, n_.iter
+        elif isinstance(n_, (ast.ListComp, ast.GeneratorExp)) and len(n_.generators) == 1:
+            tgt, it_ = n_.generators[0].target, n_.generators[0].iter
+        if tgt is None or not (isinstance(it_, ast.Name) and it_.id == tname and isinstance(tgt, ast.Tuple) and len(tgt.elts) == 2
+                               and all(isinstance(x_, ast.Name) for x_ in tgt.elts)):
+            continue
+        a_name, b_name = tgt.elts[0].id, tgt.elts[1].id
+        if isinstance(n_, ast.For):
+            hits = [x_ for x_ in n_.body if isinstance(x_, ast.If) and x_.body and isinstance(x_.body[-1], ast.Return)]
+            if len(hits) == 1:
+                got = hits[0].body[-1].value
+                ok = close_test(hits[0].test, a_name) and isinstance(got, ast.Name) and got.id == b_name
+                verdict = (ok, n_, "for/if/return")
+        else:
+            ifs = n_.generators[0].ifs
+            if len(ifs) == 1 and isinstance(n_.elt, ast.Name):
+                ok = close_test(ifs[0], a_name) and n_.elt.id == b_name
+                # the comprehension keeps table order; the first match must be the one returned
+                par = getattr(n_, "_parent", None)
+                holder = par.targets[0].id if isinstance(par, ast.Assign) and isinstance(par.targets[0], ast.Name) else None
+                first = False
+                for r_ in walk_function(f.node):
+                    if isinstance(r_, ast.Return) and r_.value is not None:
+                        v_ = r_.value
+                        if isinstance(v_, ast.Subscript) and const_value(v_.slice) == 0 and (
+                                (isinstance(v_.value, ast.Name) and v_.value.id == holder) or v_.value is n_):
+                            first = True
+                        if isinstance(v_, ast.Call) and call_name(v_) == "next" and v_.args and v_.args[0] is n_:
+                            first = True
+                if not first:
+                    continue
+                verdict = (ok, n_, "first match of a filtered comprehension")
+    if verdict is None:
+        raise AnalysisError("_get_beta: the look-up over the (P_A, beta) table uses an idiom that is not in the accepted table "
+                            "(for/if isclose/return, first element of a filtered comprehension)")
+    if verdict[0]:
+        ctx.holds(f, verdict[1], "beta is looked up by the requested P_A (%s)" % verdict[2])
     else:
-        ctx.violated(f, loop[0] if loop else f.node, "beta look-up does not return the beta paired with the requested P_A")
+        ctx.violated(f, verdict[1], "beta look-up does not return the beta paired with the requested P_A")
+    # ---- gamma_L of the two distributions: read off the symbolic return value for P_L = 2.5 % and otherwise
     want = {True: to_nf(parse_expr("(0.7*beta - 2)*SD")), False: to_nf(parse_expr("0.7*beta*SD"))}
+
+    def is_close(c, val):
+        return isinstance(c, tuple) and len(c) >= 3 and c[0] == "call" and c[1] in ("np.isclose", "math.isclose") and \
+            len(c[2]) >= 2 and any(x_ == ("c", val) or x_ == ("c", float(val)) for x_ in c[2][:2]) and \
+            any(isinstance(x_, tuple) and len(x_) == 3 and x_[0] == "attr" and x_[2] == "P_L" for x_ in c[2][:2])
+
     for cls, sd in (("FKMLoadDistributionNormal", "s_L"), ("FKMLoadDistributionLognormal", "LSD_s")):
         g = prog.func(LD + cls + ".gamma_L")
-        rets = [s_ for s_ in walk_function(g.node) if isinstance(s_, ast.Return)]
-        if len(rets) != 1:
-            raise AnalysisError("%s.gamma_L: expected a single return" % cls)
-        env = inline_env(CFG(g.node), rets[0])
-        env.pop("__ambiguous__", None)
-        full = subst_names(rets[0].value, env)
+        it = Interp(prog, TermDomain(), max_depth=3, follow=lambda f_: False, single_exit=True)
+        full = it.run(g, [("p", q) for q in g.params if q != "self"])
 
-        def atom(e, sd=sd):
-            if isinstance(e, ast.Attribute) and e.attr == sd:
-                return "SD"
-            if isinstance(e, ast.Call) and isinstance(e.func, ast.Attribute) and e.func.attr == "_get_beta":
-                return "beta"
-            if isinstance(e, ast.Call) and isinstance(e.func, ast.Attribute) and e.func.attr == "maximum_absolute_load":
-                return "Lmax"
-            return None
-        cases = _ifexp_cases(full)
-        keyed = {}
-        for tests, e in cases:
-            if len(tests) != 1 or norm_text(tests[0][0]) != "np.isclose(input_parameters.P_L, 2.5)":
-                keyed = None
-                break
-            keyed[tests[0][1]] = e
-        if not keyed or set(keyed) != {True, False}:
-            ctx.violated(g, rets[0], "%s load safety factor is not keyed on the single test P_L = 2.5 %% (found %s)"
-                         % (cls, [[norm_text(t) for t, _ in ts] for ts, _ in cases]))
-            continue
-        for is25, e in sorted(keyed.items(), reverse=True):
+        def named(t, sd=sd):
+            if isinstance(t, tuple) and t:
+                if t[0] == "attr" and len(t) == 3 and t[2] == sd:
+                    return ("p", "SD")
+                if t[0] == "m" and t[2] == "_get_beta":
+                    return ("p", "beta")
+                if t[0] == "m" and t[2] == "maximum_absolute_load":
+                    return ("p", "Lmax")
+                return tuple(named(x_) if isinstance(x_, tuple) else x_ for x_ in t)
+            return t
+
+        def nf_of(t):
+            return to_nf(term_to_ast(t), atom=lambda e: e.id if isinstance(e, ast.Name) else None)
+        for is25 in (True, False):
             label = "P_L = 2.5 %" if is25 else "P_L = 50 %"
+            t = named(term_resolve(full, lambda c, is25=is25: is25 if is_close(c, 2.5) else None))
+            left = [x_ for x_ in term_walk_(t) if isinstance(x_, tuple) and x_ and x_[0] in ("ite", "phi", "?")]
+            if left:
+                if any(x_[0] == "ite" and not is_close(x_[1], 2.5) for x_ in left):
+                    ctx.violated(g, g.node, "%s load safety factor is not keyed on the single test P_L = 2.5 %% (also on %s)"
+                                 % (cls, [x_[1] for x_ in left if x_[0] == "ite"][:1]), text="%s keyed" % cls)
+                    break
+                raise AnalysisError("%s.gamma_L: the returned value was not understood" % cls)
             try:
                 if cls == "FKMLoadDistributionNormal":
-                    ok = to_nf(e, atom=atom) == (to_nf(parse_expr("Lmax")) + want[is25]) / to_nf(parse_expr("Lmax"))
+                    ok = nf_of(t) == (to_nf(parse_expr("Lmax")) + want[is25]) / to_nf(parse_expr("Lmax"))
                     shape = "(L_max + alpha)/L_max"
                 else:
                     shape = "max(1, 10**alpha)"
-                    ok = isinstance(e, ast.Call) and call_name(e) in ("max", "np.maximum") and len(e.args) == 2 and not e.keywords
+                    ok = isinstance(t, tuple) and t[0] == "call" and t[1] in ("max", "np.maximum") and len(t[2]) == 2 and not t[3]
                     if ok:
-                        one = [a_ for a_ in e.args if const_value(a_) in (1, 1.0)]
-                        pw = [a_ for a_ in e.args if isinstance(a_, ast.BinOp) and isinstance(a_.op, ast.Pow)
-                              and const_value(a_.left) in (10, 10.0)]
-                        ok = len(one) == 1 and len(pw) == 1 and to_nf(pw[0].right, atom=atom) == want[is25]
-            except NFUnsupported as ex:
+                        one = [a_ for a_ in t[2] if a_ in (("c", 1), ("c", 1.0))]
+                        pw = [a_ for a_ in t[2] if isinstance(a_, tuple) and a_[0] == "op" and a_[1] == "**" and
+                              a_[2] in (("c", 10), ("c", 10.0))]
+                        ok = len(one) == 1 and len(pw) == 1 and nf_of(pw[0][3]) == want[is25]
+            except (NFUnsupported, ValueError) as ex:
                 raise AnalysisError("%s.gamma_L outside the fragment: %s" % (cls, ex))
             if ok:
-                ctx.holds(g, rets[0], "%s, %s: gamma_L = %s with alpha = %s" % (cls, label, shape,
-                                                                            "(0.7 beta - 2) s" if is25 else "0.7 beta s"))
+                ctx.holds(g, g.node, "%s, %s: gamma_L = %s with alpha = %s" % (cls, label, shape,
+                                                                           "(0.7 beta - 2) s" if is25 else "0.7 beta s"))
             else:
-                ctx.violated(g, rets[0], "%s, %s: gamma_L = %s is not %s with alpha = %s" % (
-                    cls, label, norm_text(e), shape, "(0.7 beta - 2) s" if is25 else "0.7 beta s"), text="%s %s" % (cls, label))
+                ctx.violated(g, g.node, "%s, %s: gamma_L is not %s with alpha = %s" % (
+                    cls, label, shape, "(0.7 beta - 2) s" if is25 else "0.7 beta s"), text="%s %s" % (cls, label))
     gb = prog.func(LD + "FKMLoadDistributionBlanket.gamma_L")
-    br = [s for s in gb.node.body if isinstance(s, ast.If)]
+    it = Interp(prog, TermDomain(), max_depth=3, follow=lambda f_: False, single_exit=True, raise_leaf=True)
+    full = it.run(gb, [("p", q) for q in gb.params if q != "self"])
     vals = {}
-    if br:
-        n = br[0]
-        while isinstance(n, ast.If):
-            c = [x for x in calls_in(n.test) if call_name(x) == "np.isclose"]
-            if c and n.body and isinstance(n.body[0], ast.Assign):
-                vals[const_value(c[0].args[1])] = const_value(n.body[0].value)
-            n = n.orelse[0] if n.orelse and isinstance(n.orelse[0], ast.If) else None
-    if vals == {2.5: 1.1, 50: 1.0}:
-        ctx.holds(gb, br[0], "blanket: 1.1 for P_L = 2.5 %, 1.0 for P_L = 50 %")
+    for key, truth in ((2.5, {2.5: True, 50: False}), (50, {2.5: False, 50: True}), (None, {2.5: False, 50: False})):
+        v = term_select(full, lambda c, truth=truth: next((tv for k_, tv in truth.items() if is_close(c, k_)), None))
+        vals[key] = None if v is None else ("raises" if v == RAISED else v[1] if v[0] == "c" else v)
+    if any(v is None for v in vals.values()):
+        raise AnalysisError("FKMLoadDistributionBlanket.gamma_L: the case analysis on P_L was not understood")
+    if vals == {2.5: 1.1, 50: 1.0, None: "raises"}:
+        ctx.holds(gb, gb.node, "blanket: 1.1 for P_L = 2.5 %, 1.0 for P_L = 50 %, anything else is refused")
     else:
-        ctx.violated(gb, br[0] if br else gb.node, "blanket load safety factors are %s, expected {2.5: 1.1, 50: 1.0}" % vals)
+        ctx.violated(gb, gb.node, "blanket load safety factors are %s, expected {2.5: 1.1, 50: 1.0, other: raises}" % vals,
+                     text="blanket factors")
+
+
+def term_walk_(t):
+    from ..absint import term_walk
+    return term_walk(t)
 
 
 def _replace_in(expr, target, repl):
